@@ -1,7 +1,8 @@
 (* Model of rxsci/container/json.py (dump, load, dump_to_file, load_from_file with lines=True).
    orjson, the text codec (rs.data.encode/decode, C17) and the compression stage (C16) are NOT modelled
    here: they enter as Section variables.  The rxsci logic modelled: one text item per object with the
-   newline appended, the stage order, file.write = append / file.read(size) = a re-chunking, line
+   newline appended, the stage order, file.write = append / file.read(size) = a re-chunking (buffered file:
+   full chunks then the rest; raw stream: whatever each read call delivers, raw_read), line
    unframing (REUSED from Framing.Line), skip, the len(line) > 0 filter, the None filter.
    Executable; no proofs in this file.
 
@@ -56,6 +57,20 @@ Variable decompress : list (list Byte) -> option (list (list Byte)).
 Definition file_write (chunks : list (list Byte)) : list Byte := concat chunks.
 Definition file_read (size : nat) (f : list Byte) : list (list Byte) := batches Byte size f.
 
+(* file.read(size) over a RAW stream (a custom open_obj may return an io.RawIOBase-like object: pipe, socket,
+   remote store): the k-th call f.read(size) may legitimately deliver FEWER bytes than asked before the end
+   of the data - min(size, cap_k, bytes left), where cap_k is what the stream has at hand at that call; only
+   an EMPTY read means end of file.  file.py:  data = f.read(size)
+                                               while not disposed and len(data) > 0:
+                                                   observer.on_next(data); data = f.read(size)
+   caps = the caps of the successive calls (the last one is the call that returned nothing). *)
+Fixpoint raw_read (size : nat) (caps : list nat) (f : list Byte) : list (list Byte) :=
+  match caps with
+  | [] => []
+  | c :: cs => let n := Nat.min (Nat.min size c) (length f) in
+               if n =? 0 then [] else firstn n f :: raw_read size cs (skipn n f)
+  end.
+
 Definition dump_to_file (objs : list Obj) : list Byte := file_write (compress (encode (json_dump objs))).
 (* from the byte chunks that file.read delivers (items delivered before a stage error are not modelled) *)
 Definition load_chunks (skip : nat) (ignore_error : bool) (r : list (list Byte)) : list Obj * bool :=
@@ -83,6 +98,16 @@ Fixpoint len_run_timed (acc : N) (chunks : list (list N)) : list (list N) :=
   match chunks with
   | [] => [len_finish acc]
   | c :: cs => let '(acc', out) := len_step acc c in out :: len_run_timed acc' cs
+  end.
+
+(* ---- size-level abstraction of raw_read (tied to it by JsonLinesProofs.raw_read_sizes): the sizes of the
+   chunks file.read delivers from a raw stream, from the read size, the caps of the successive calls and the
+   file size; used by the correspondence check ---- *)
+Fixpoint raw_sizes (rsize : N) (caps : list N) (left : N) : list N :=
+  match caps with
+  | [] => []
+  | c :: cs => let n := N.min (N.min rsize c) left in
+               if (n =? 0)%N then [] else n :: raw_sizes rsize cs (left - n)%N
   end.
 
 (* ---- executable instance for the correspondence check: objects are identifiers, json.dumps /
